@@ -19,8 +19,11 @@ ErrTxnTooBig") compares two size computations of the code:
   marker (`key = txnKey ++ 8 bytes`, `value = decimal commitTs`), and fails with `ErrTxnTooBig`
   when `count ≥ maxBatchCount ∨ size ≥ maxBatchSize`.
 
-`C28_fits` is stated over these parameters; its side condition `finReserve ≥ finMax` is FALSE
-for today's constants (21 < 41, finding F6): `C28_fits_counterexample`.
+`C28_fits` is stated over these parameters. Its side condition `finReserve ≥ finMax` was FALSE
+for the constants of the original code (`len(txnKey)+10 = 21 < 41`, finding F6:
+`C28_fits_counterexample`, kept over the old parameters); after the `fix:` commit in /repo
+(`size: len(txnKey)+30`, mirrored by `Db.begin`) it holds: `C28_side_condition_today`,
+`C28_fits_today`. The reserve is read off the model (`beginReserve`), not hard-wired.
 
 NOTE (model gap, reported): `Db.commit` in `BadgerModel/Mvcc.lean` has no `ErrTxnTooBig` branch
 (the `sendToWriteCh` check is not modelled), so the commit-side computation is defined here
@@ -258,15 +261,22 @@ theorem estimateSize_keyWithTs (thr : Nat) (e : Ent) (ts : Nat) :
 
 /-- `txn.size`/`txn.count` dominate what the entries still held by the transaction
     (pending + duplicate writes, i.e. exactly the request of `commitAndSend`) need. -/
-def SizeInv (d : Db) (t : TxnM) : Prop :=
-  txnKeyLen + 10 + ((t.pending ++ t.dups).map (fun e => estimateSize d.opts.threshold e + 10)).sum ≤ t.size ∧
+def SizeInv (R : Nat) (d : Db) (t : TxnM) : Prop :=
+  R + ((t.pending ++ t.dups).map (fun e => estimateSize d.opts.threshold e + 10)).sum ≤ t.size ∧
   (t.pending ++ t.dups).length + 1 ≤ t.count
 
+/-- the reserve `newTransaction` puts into `txn.size`, read off the model -/
+def beginReserve : Nat :=
+  match ((Db.init {} 0).begin 0 true 0).1.txns with
+  | t :: _ => t.size
+  | [] => 0
+
 theorem sizeInv_begin (d : Db) (id : Nat) (u : Bool) (mts : Nat) :
-    ∃ t, (d.begin id u mts).1.findTxn id = some t ∧ SizeInv (d.begin id u mts).1 t := by
+    ∃ t, (d.begin id u mts).1.findTxn id = some t ∧ SizeInv beginReserve (d.begin id u mts).1 t := by
   unfold Db.begin
   refine ⟨_, findTxn_setTxn_self _ _, ?_⟩
-  simp [SizeInv]
+  simp only [SizeInv, List.append_nil, List.map_nil, List.sum_nil, List.length_nil]
+  decide
 
 theorem sum_filter_find_le (w : Ent → Nat) (k : Bytes) (l : List Ent) (o : Ent)
     (h : l.find? (·.key == k) = some o) :
@@ -315,9 +325,9 @@ theorem length_filter_find_lt (k : Bytes) (l : List Ent) (o : Ent)
   exact h1
 
 /-- `SizeInv` is preserved by an accepted `modify`. -/
-theorem sizeInv_modify (d : Db) (id : Nat) (t : TxnM) (e : Ent) (hf : d.findTxn id = some t)
-    (hi : SizeInv d t) (h : (d.modify id e).2 = none) :
-    (d.modify id e).1.findTxn id = some (modTxn d t e) ∧ SizeInv (d.modify id e).1 (modTxn d t e) ∧
+theorem sizeInv_modify (R : Nat) (d : Db) (id : Nat) (t : TxnM) (e : Ent) (hf : d.findTxn id = some t)
+    (hi : SizeInv R d t) (h : (d.modify id e).2 = none) :
+    (d.modify id e).1.findTxn id = some (modTxn d t e) ∧ SizeInv R (d.modify id e).1 (modTxn d t e) ∧
     (modTxn d t e).size < d.opts.maxBatchSize ∧ (modTxn d t e).count < d.opts.maxBatchCount := by
   have hv := (C28_verdict_iff d id t e hf).2.2.2.2.2.2.2.1 h
   rw [modify_eq e hf] at h ⊢
@@ -348,18 +358,18 @@ theorem sizeInv_modify (d : Db) (id : Nat) (t : TxnM) (e : Ent) (hf : d.findTxn 
         constructor <;> omega
       · constructor <;> omega
 
-/-- the real parameters of today's code, over an arbitrary marker cost -/
-def realParams (finCost : Nat → Nat) (finMax : Nat) : SizeParams :=
-  { finReserve := txnKeyLen + 10, perEntryPad := 10, tsLen := 8, finCost := finCost, finMax := finMax }
+/-- the parameters of the code for a reserve `R`, over an arbitrary marker cost -/
+def realParams (R : Nat) (finCost : Nat → Nat) (finMax : Nat) : SizeParams :=
+  { finReserve := R, perEntryPad := 10, tsLen := 8, finCost := finCost, finMax := finMax }
 
 /-- Model-level fit theorem with the hypothesis explicit: a model transaction that satisfies the
-    bookkeeping invariant and whose last write was accepted (so `size < maxBatchSize`,
-    `count < maxBatchCount`) fits into `sendToWriteCh` **provided the marker costs no more than
-    the reserve `len(txnKey)+10`**. -/
-theorem C28_fits_model (d : Db) (t : TxnM) (finCost : Nat → Nat) (cts : Nat)
-    (hi : SizeInv d t) (hs : t.size < d.opts.maxBatchSize) (hc : t.count < d.opts.maxBatchCount)
-    (hfin : finCost cts ≤ txnKeyLen + 10) :
-    ¬ sendTooBig (realParams finCost (txnKeyLen + 10)) d.opts.threshold d.opts.maxBatchCount
+    bookkeeping invariant for reserve `R` and whose last write was accepted (so
+    `size < maxBatchSize`, `count < maxBatchCount`) fits into `sendToWriteCh` **provided the
+    marker costs no more than the reserve**. -/
+theorem C28_fits_model (R : Nat) (d : Db) (t : TxnM) (finCost : Nat → Nat) (cts : Nat)
+    (hi : SizeInv R d t) (hs : t.size < d.opts.maxBatchSize) (hc : t.count < d.opts.maxBatchCount)
+    (hfin : finCost cts ≤ R) :
+    ¬ sendTooBig (realParams R finCost R) d.opts.threshold d.opts.maxBatchCount
         d.opts.maxBatchSize (t.pending ++ t.dups) cts := by
   obtain ⟨h1, h2⟩ := hi
   have hle : ((t.pending ++ t.dups).map (fun e => estimateSize d.opts.threshold e + 8)).sum ≤
@@ -372,7 +382,7 @@ theorem C28_fits_model (d : Db) (t : TxnM) (finCost : Nat → Nat) (cts : Nat)
   simp only
   omega
 
-/-! ### today's constants: the side condition fails (finding F6) -/
+/-! ### the constants: before and after the F6 fix -/
 
 /-- number of decimal digits (fuel 19 covers every `uint64`) -/
 def decLenF : Nat → Nat → Nat
@@ -401,32 +411,51 @@ theorem finCostReal_le (thr cts : Nat) : finCostReal thr cts ≤ txnKeyLen + 8 +
   simp only [keyWithTs_length, List.length_replicate, decLen] at *
   split <;> omega
 
-/-- the side condition of `C28_fits` for today's constants is false: the reserve is 21, the
-    marker costs up to 41. -/
-theorem C28_side_condition_false :
-    ¬ ((realParams (finCostReal 1024) (txnKeyLen + 8 + 20 + 2)).finReserve ≥
-        (realParams (finCostReal 1024) (txnKeyLen + 8 + 20 + 2)).finMax) := by decide
+/-- today's reserve (after the F6 `fix:` commit): `len(txnKey) + 30 = 41` -/
+theorem C28_reserve_today : beginReserve = txnKeyLen + 8 + 20 + 2 := by decide
 
-/-- F6 on a small instance: `maxBatchSize = 35`; one entry `a ↦ ""` is accepted by `modify`
-    (`txn.size = 21 + 3 + 10 = 34 < 35`), and at commit timestamp 1000 `sendToWriteCh` computes
-    `(3 + 8) + (11 + 8 + 4 + 2) = 36 ≥ 35`: `ErrTxnTooBig`. -/
+/-- the side condition of `C28_fits` holds for today's constants: reserve 41 ≥ marker ≤ 41. -/
+theorem C28_side_condition_today :
+    (realParams beginReserve (finCostReal 1024) (txnKeyLen + 8 + 20 + 2)).finReserve ≥
+      (realParams beginReserve (finCostReal 1024) (txnKeyLen + 8 + 20 + 2)).finMax := by decide
+
+/-- **Accepted transactions fit** (today's code, unconditional): for every model transaction
+    satisfying the bookkeeping invariant (`sizeInv_begin`, `sizeInv_modify`) whose last write
+    was accepted, `sendToWriteCh` does not answer `ErrTxnTooBig`, whatever the commit
+    timestamp and the threshold. -/
+theorem C28_fits_today (d : Db) (t : TxnM) (cts : Nat)
+    (hi : SizeInv beginReserve d t) (hs : t.size < d.opts.maxBatchSize)
+    (hc : t.count < d.opts.maxBatchCount) :
+    ¬ sendTooBig (realParams beginReserve (finCostReal d.opts.threshold) beginReserve) d.opts.threshold
+        d.opts.maxBatchCount d.opts.maxBatchSize (t.pending ++ t.dups) cts :=
+  C28_fits_model beginReserve d t _ cts hi hs hc
+    (by rw [C28_reserve_today]; exact finCostReal_le _ _)
+
+/-- the side condition for the ORIGINAL constants (reserve `len(txnKey)+10 = 21`) was false. -/
+theorem C28_side_condition_false_before_fix :
+    ¬ ((realParams (txnKeyLen + 10) (finCostReal 1024) (txnKeyLen + 8 + 20 + 2)).finReserve ≥
+        (realParams (txnKeyLen + 10) (finCostReal 1024) (txnKeyLen + 8 + 20 + 2)).finMax) := by decide
+
+/-- F6 on a small instance, over the ORIGINAL parameters (reserve 21): `maxBatchSize = 35`; one
+    entry `a ↦ ""` passes every `checkSize` (`21 + 3 + 10 = 34 < 35`), and at commit timestamp
+    1000 `sendToWriteCh` computes `(3 + 8) + (11 + 8 + 4 + 2) = 36 ≥ 35`: `ErrTxnTooBig`.
+    (The replay on the real code is the corpus entry for F6; the current model has the fixed
+    reserve, so the same instance fits: second part.) -/
 theorem C28_fits_counterexample :
-    let d0 := Db.init { managed := true, maxBatchCount := 100, maxBatchSize := 35 } 0
-    let d1 := (d0.begin 1 true 5).1
     let e : Ent := { key := [0x61], ver := 0, emeta := 0, umeta := 0, exp := 0, val := [] }
-    (d1.modify 1 e).2 = none ∧
-    (match (d1.modify 1 e).1.findTxn 1 with
-     | some t => t.pending ++ t.dups = [e] ∧
-        sendTooBig (realParams (finCostReal 1024) 41) 1024 100 35 (t.pending ++ t.dups) 1000
-     | none => False) := by
-  refine ⟨by decide, ?_⟩
-  refine ⟨by decide, ?_⟩
-  right
-  decide
+    let Pold := realParams (txnKeyLen + 10) (finCostReal 1024) 41
+    let Pnew := realParams beginReserve (finCostReal 1024) 41
+    (acceptedAll Pold 1024 100 35 1 Pold.finReserve [e] ∧ sendTooBig Pold 1024 100 35 [e] 1000) ∧
+    (acceptedAll Pnew 1024 100 55 1 Pnew.finReserve [e] ∧ ¬ sendTooBig Pnew 1024 100 55 [e] 1000) := by
+  refine ⟨⟨⟨by decide, by decide, trivial⟩, .inr (by decide)⟩, ⟨⟨by decide, by decide, trivial⟩, ?_⟩⟩
+  intro h
+  rcases h with h | h
+  · revert h; decide
+  · revert h; decide
 
 -- non-vacuity of `C28_fits`: parameters with a sufficient reserve (41) and an accepted entry
 example :
-    let P : SizeParams := realParams (finCostReal 1024) 41
+    let P : SizeParams := realParams 21 (finCostReal 1024) 41
     let P' : SizeParams := { P with finReserve := 41 }
     let e : Ent := { key := [0x61], ver := 0, emeta := 0, umeta := 0, exp := 0, val := [] }
     P'.finReserve ≥ P'.finMax ∧ P'.perEntryPad ≥ P'.tsLen ∧ acceptedAll P' 1024 100 60 1 P'.finReserve [e] := by
